@@ -331,7 +331,8 @@ def qx1(ctx):
             seen[what] = seen.get(what, 0) + 1
             bad = [(p, sorted(x)) for p, x in eff.items() if p != e['point'] and e['point'] in b.reach_after(p)]
             ctx.check(not bad, '%s:%s#%d' % (b.path, what, seen[what]), where(b, e['point']), 'no effect site reaches this quiet exit',
-                      'a rejected / no-op call can leave a trace: %s at %s happens before this quiet exit' % (bad[0][1] if bad else '-', b.loc(bad[0][0]) if bad else '-'))
+                      'a rejected / no-op call can leave a trace: %s at %s happens before this quiet exit' % (bad[0][1] if bad else '-', b.loc(bad[0][0]) if bad else '-'),
+                      detail={'path': b.witness(bad[0][0], e['point'])} if bad else None)
     if n == 0:
         ctx.missing('quiet-exits', 'no rejecting / no-op exit found in the mutating API')
 
